@@ -34,11 +34,13 @@ Proof.
   - (* field line *) cbn [tline]. pose proof (H (S d)) as Hf. cbn [Fmt0.pexp] in Hf. destruct b; destruct t; cbn [app]; fa; try apply all_indent; try exact Hf.
   - (* comment line *) cbn [tline]. destruct b; cbn [app]; fa; apply all_indent.
 Qed.
+Lemma all_brk b xs : Forall P xs -> Forall P (brk b xs).
+Proof. intros H. unfold brk. destruct b; fa; exact H. Qed.
 Theorem all_pexp : forall e d, Forall P (pexp d e).
 Proof.
   induction e using exp_ind'; intros d; try (cbn [Fmt0.pexp]; fa; fail).
   - cbn [Fmt0.pexp]. fa. apply IHe.
-  - cbn [Fmt0.pexp]. fa; [apply IHe1|apply IHe2].
+  - cbn [Fmt0.pexp]. apply Forall_app; split; [apply IHe1|apply all_brk; apply IHe2].
   - cbn [Fmt0.pexp]. fa; [apply IHe|]. apply all_pargs. apply all_commas. apply all_map_pexp. exact H.
   - cbn [Fmt0.pexp]. fa; [apply IHe|]. apply all_pargs. apply all_commas. apply all_map_pexp. exact H.
   - cbn [Fmt0.pexp]. fa; [destruct u; cbn [uop_toks]; fa|apply IHe].
@@ -48,7 +50,7 @@ Proof.
     change (pexp d (ETable (f :: fs))) with (kw "{" :: sp :: commas (map (pexp d) (f :: fs)) ++ [sp; kw "}"]). fa. apply all_commas. apply all_map_pexp. exact H.
   - cbn [Fmt0.pexp]. apply IHe.
   - cbn [Fmt0.pexp]. fa. apply IHe.
-  - cbn [Fmt0.pexp]. fa; [apply IHe1|apply IHe2].
+  - cbn [Fmt0.pexp]. apply Forall_app; split; [apply all_brk; apply IHe1|]. fa. apply IHe2.
   - destruct fs as [|f fs]; [cbn [Fmt0.pexp]; fa|]. rewrite p_tableml. apply Forall_cons; [apply Hsym|]. apply Forall_cons; [apply Hws|]. apply Forall_app; split; [|apply Forall_app; split; [apply all_indent|fa]].
     unfold tlines. induction H as [|x r Hx Hr IH]; [constructor|]. cbn [map List.concat]. apply Forall_app. split; [apply all_tline; exact Hx|exact IH].
   - cbn [Fmt0.pexp]. apply IHe.
